@@ -24,7 +24,7 @@ _UNIT_SUITES = [
     ('U-vtype.', ['preds']), ('U-shape.', ['preds', 'shapes']), ('U-qkey.', ['preds']),
     ('U-ptfin.', ['pkgrules']), ('U-ptname.', ['names']),
     ('U-build.', ['builder', 'protocol']), ('U-proto.', ['protocol']), ('U-set.', ['builder']),
-    ('U-qmap.', ['qualmap']), ('U-qcmp.', ['qualmap']),
+    ('U-qmap.', ['qualmap']), ('U-qcmp.', ['qualmap']), ('U-wk.', ['qualmap']),
     ('U-comb.', ['comb']), ('U-acc.', ['format:C03']),
     ('U-sub.', ['segments']), ('U-ns.', ['segments']),
     ('U-fmt.', ['format:C03']), ('escape_set_', ['format:C03']), ('type_char', ['preds']), ('key_char', ['preds']), ('package_type_names', ['names']), ('U-ck', ['checksum']), ('U-dq.', ['tokens:C02 C05']), ('U-parse.', ['tokens:C02 C05', 'spell:C02']),
@@ -104,7 +104,7 @@ PROPS = {
                     'BOUNDED: values that are not normalised (builder-made namespaces with empty segments etc.) and the end-to-end statement on the compiled code: all pairs of a near-collision corpus, parsed and built, String and PackageType.'),
 }
 
-ALL_GROUPS = ['lib_lower', 'lib_shape', 'pkgtype', 'qual', 'builder', 'purl', 'parse_seg', 'cksum', 'fmt', 'parse', 'inverse', 'serde', 'c01', 'ckfix', 'c14', 'c02', 'c05', 'misc']
+ALL_GROUPS = ['lib_lower', 'lib_shape', 'pkgtype', 'qual', 'builder', 'purl', 'parse_seg', 'cksum', 'fmt', 'parse', 'inverse', 'serde', 'c01', 'ckfix', 'c14', 'c02', 'c05', 'misc', 'wk']
 
 
 def _auto_groups():
